@@ -89,6 +89,9 @@ fn main() {
             let len = cfgv.get("len").and_then(|x| x.as_u64()).unwrap_or(40) as usize;
             let vals = strs("vals");
             let advances: Vec<u64> = cfgv.get("advances").and_then(|x| x.as_array()).map(|a| a.iter().map(|x| x.as_u64().unwrap()).collect()).unwrap_or(vec![1]);
+            // op weights: Set, SetTtl, Delete, DeleteTtl, Advance, Gc
+            let w: Vec<u64> = cfgv.get("weights").and_then(|x| x.as_array()).map(|a| a.iter().map(|x| x.as_u64().unwrap()).collect()).unwrap_or(vec![3, 2, 1, 1, 2, 1]);
+            let wsum: u64 = w.iter().sum();
             let mut rng = StdRng::seed_from_u64(seed);
             for _ in 0..n {
                 let mut run = Run::new(wc.clone());
@@ -97,12 +100,15 @@ fn main() {
                 for i in 0..len {
                     let k = keys.choose(&mut rng).unwrap().clone();
                     let v = vals.choose(&mut rng).unwrap().clone();
-                    let st = match rng.random_range(0..10) {
-                        0 | 1 | 2 => json!({"a": "Set", "n": "n1", "k": k, "v": v}),
-                        3 | 4 => json!({"a": "SetTtl", "n": "n1", "k": k, "v": v}),
-                        5 => json!({"a": "Delete", "n": "n1", "k": k}),
-                        6 => json!({"a": "DeleteTtl", "n": "n1", "k": k}),
-                        7 | 8 => json!({"a": "Advance", "d": advances.choose(&mut rng).unwrap()}),
+                    let mut r = rng.random_range(0..wsum);
+                    let mut which = 0usize;
+                    while r >= w[which] { r -= w[which]; which += 1; }
+                    let st = match which {
+                        0 => json!({"a": "Set", "n": "n1", "k": k, "v": v}),
+                        1 => json!({"a": "SetTtl", "n": "n1", "k": k, "v": v}),
+                        2 => json!({"a": "Delete", "n": "n1", "k": k}),
+                        3 => json!({"a": "DeleteTtl", "n": "n1", "k": k}),
+                        4 => json!({"a": "Advance", "d": advances.choose(&mut rng).unwrap()}),
                         _ => json!({"a": "Gc", "n": "n1"}),
                     };
                     steps.push(st);
@@ -121,8 +127,31 @@ fn main() {
                 }
             }
         }
+        "exec" => {
+            // re-executes given step lists and writes the recorded trace (same format as `drive`)
+            let stdin = std::io::stdin();
+            vharness::read_behaviours(stdin.lock(), |b| {
+                let steps = b["steps"].as_array().cloned().unwrap_or_default();
+                let mut run = Run::new(wc.clone());
+                writeln!(out, "{}", json!({"a": "Reset"})).unwrap();
+                for i in 0..steps.len() {
+                    run.step(&steps, i);
+                    let mut ev = run.events[i].clone();
+                    let mut r = reads(&mut run, &keys, &prefixes);
+                    r.as_object_mut().unwrap().remove("vals_ok");
+                    let o = ev.as_object_mut().unwrap();
+                    o.remove("post");
+                    o.remove("out");
+                    if !o.contains_key("k") { o.insert("k".into(), json!("")); }
+                    if !o.contains_key("v") { o.insert("v".into(), json!("")); }
+                    if !o.contains_key("d") { o.insert("d".into(), json!(0)); }
+                    o.insert("reads".into(), r);
+                    writeln!(out, "{}", ev).unwrap();
+                }
+            });
+        }
         _ => {
-            eprintln!("usage: localkv replay|drive '<cfg json>'");
+            eprintln!("usage: localkv replay|drive|exec '<cfg json>'");
             std::process::exit(2);
         }
     }
